@@ -167,3 +167,33 @@ Proof.
   cbv zeta. split; [repeat constructor; cbn; try discriminate; try (intros ? E; discriminate E); unfold good_obj, good_field, good_range, wf_cidr; cbn; repeat split; try lia; try discriminate; intros [? _]; discriminate|].
   split; [cbn; constructor; [cbn; intros [E|[]]; discriminate E|constructor; [intros []|constructor]]|]. vm_compute. reflexivity.
 Qed.
+
+(* the most general form: each operation is judged in the state it is applied to.  Nodes may be created WITH pod CIDRs
+   while no informer is watching (pre-existing pod CIDRs: controller down or informers not yet started) as long as these
+   overlap nothing another holder holds; a name may be used again once the deletion of its previous bearer was processed *)
+Theorem C01_no_two_holders_overlap_in_any_valid_history :
+  forall po lab ops, valid po lab init_world ops ->
+  let w := run po lab init_world ops in
+  forall n1 c1 n2 c2, holder w n1 c1 -> holder w n2 c2 -> n1 <> n2 -> overlapb c1 c2 = false.
+Proof. exact no_overlap_in_valid_histories. Qed.
+Print Assumptions C01_no_two_holders_overlap_in_any_valid_history.
+
+(* non-vacuity: a node with a pre-existing /27 (two blocks of the ClusterCIDR, which is created later) exists before the
+   controller starts; the controller serves two more nodes around it *)
+Example C01_valid_history_nonvacuous :
+  let po0 : parse_oracle := fun _ => Some [] in
+  let lab0 : label_oracle := fun k => [cl k] in
+  let ops := [UCreateNode [110;48] [] [PGood (mkCidr V4 167772160 27) true];
+              Construct None None []; StartInformers;
+              UCreateCC (mkCCObj [99] (FOk (mkCidr V4 167772160 26)) FEmpty 4 (Some [107]) [] false 1 0 0); DeliverCC; ProcCC UOk;
+              UCreateNode [110;49] [] []; UCreateNode [110;50] [] []; DeliverNode; DeliverNode; ProcNode [POk]; ProcNode [POk]; ProcNode [POk]] in
+  valid po0 lab0 init_world ops /\
+  map (fun a => (an_name a, an_cidrs a)) (w_nodes (run po0 lab0 init_world ops))
+  = [([110;48], [PGood (mkCidr V4 167772160 27) true]); ([110;49], [PGood (mkCidr V4 167772192 28) true]); ([110;50], [PGood (mkCidr V4 167772208 28) true])].
+Proof.
+  cbv zeta. split; [|vm_compute; reflexivity].
+  cbn [valid]. repeat split; cbn; try tauto; try discriminate; try (intros ? E; discriminate E);
+    try (unfold good_obj, good_field, good_range, wf_cidr, wf_pcidr; cbn; repeat split; try lia; try discriminate; intros [? _]; discriminate).
+  all: try (repeat constructor; unfold wf_pcidr, wf_cidr; cbn; repeat split; try lia; reflexivity).
+  all: try (right; split; [reflexivity|intros c cn Hc n2 d [(a & [] & _)|(x & cn2 & [] & _)]]).
+Qed.
